@@ -47,6 +47,24 @@ def run(ctx):
             hist[k] = hist.get(k, 0) + v
         for v in rep["violations"]:
             violations.append({"class": v["class"], "what": v["kind"], "replay": v["replay"]})
+        # schedule / scheduled preprocessed matrix: real AluAir vs lean/P3R/Model/AluSchedule.lean
+        with open(f"{out}/alusched.cases") as fin:
+            rc, mo = ctx["sh"]([ctx["driver_dir"] + "/p3r_driver_c11"], stdin=fin, timeout=3600)
+        mlines = [l for l in mo.splitlines() if l.startswith("m ") or l == "bad-op"]
+        ilines = read_lines(f"{out}/alusched.impl"); scases = read_lines(f"{out}/alusched.cases")
+        blocks += len(scases)
+        sd = 0
+        for k in range(max(len(ilines), len(mlines))):
+            a = ilines[k] if k < len(ilines) else None
+            b = mlines[k] if k < len(mlines) else None
+            if a != b:
+                disagreements += 1; sd += 1
+                if sd <= 3:
+                    violations.append({"class": "model-disagreement",
+                        "what": "correspondence compute_schedule + build_scheduled_preprocessed_trace (alu_air.rs) vs lean/P3R/Model/AluSchedule no longer checks",
+                        "replay": {"correspondence": "scheduled preprocessed matrix", "case": (scases[k] if k < len(scases) else "")[:4000],
+                                   "impl": (a or "")[:1500], "model": (b or "")[:1500]},
+                        "no_input": True})
     cov = {"evaluations": evals, "distinct_nontrivial": distinct,
            "rule": "windows over D in {1,2,4,5(quintic),8}, lanes 1..3, K_max 2..6: fully random (dense/sparse selectors) for polynomial "
                    "identity, structured valid/invalid rows judged with p3-field extension arithmetic; scheduled honest traces built by the "
